@@ -135,6 +135,8 @@ RULES: Dict[str, Tuple[str, str]] = {
     'LK-1': ('lk.spawn_registered', 'every task-creating primitive registers the task, on every path, in the registry that '
                                     'run() cancels'),
     'OO-8': ('st.contained_failures', 'the error gate of a sub-dag does not count a failure already contained by a resolved inner one-of'),
+    'RC-8': ('oo.recurrent_loop', 'the hand-over entry of a recurrent subgraph is removed when the subgraph has finished'),
+    'RT-7': ('rt.retry_loop', 'the default value is never produced inside the protected region of the retry loop'),
     'LK-7': ('lk.spawn_registered', 'the task registry holds strong references (the event loop keeps only weak references to tasks)'),
     'LK-2': ('lk.run_cleanup', 'after run() has spawned, return, exception and cancellation of run() all pass the cancel-all loop'),
     'LK-3': ('lk.run_cleanup', 'the cancel-all loop cancels every task that is not done and never stops early'),
@@ -352,6 +354,7 @@ def _mentions(*words):
     return lambda inst: any(w in inst.construct.lower() for w in ws)
 
 
+PROPERTIES['C13'].rules.append(('RT-2', _mentions('non-exception')))
 # C02 also owns the finish predicates
 PROPERTIES['C02'].rules.append(('WK-g', None))
 PROPERTIES['C02'].rules.append(('ST-1', None))
@@ -411,7 +414,7 @@ _p(PropertySpec(
 _p(PropertySpec(
     'C11',
     [('RC-1', None), ('RC-2', None), ('RC-4', None), ('RC-5', None), ('RD-2', None), ('SW-4', None), ('ST-1', None),
-     ('ON-3', None), ('SW-1', _mentions('sub-dag')), ('RD-5', None), ('PB-1', None), ('RC-6', None), ('RC-7', None), ('ST-2', None), ('SH-1', _viol)],
+     ('ON-3', None), ('SW-1', _mentions('sub-dag')), ('RD-5', None), ('PB-1', None), ('RC-6', None), ('RC-7', None), ('ST-2', None), ('SH-1', _viol), ('RC-8', None)],
     decides='the re-execution loop is bounded by exactly max_iterations and runs the subgraph once per iteration, the marker data '
             'is handed over before every run through a per-run slot the argument builder reads, consumers are never released on a '
             'Recurrent or hidden result, re-arming resets every store readiness and routing read and happens only in recurrent '
@@ -425,7 +428,7 @@ _p(PropertySpec(
 
 _p(PropertySpec(
     'C12',
-    [('RT-1', None), ('RT-2', None), ('RT-3', None), ('RT-4', None), ('RT-5', None), ('RT-6', None),
+    [('RT-1', None), ('RT-2', None), ('RT-3', None), ('RT-4', None), ('RT-5', None), ('RT-6', None), ('RT-7', None),
      # the attempt budget belongs to one execution: retry state written on an object that outlives the run is shared by
      # overlapping runs of the chart (SH-1 instances about retry / attempt state only, and only when they fail)
      ('SH-1', lambda inst: inst.verdict == 'VIOLATION' and any(w in (inst.construct + ' ' + ' '.join(inst.path)).lower() for w in ('retry', 'attempt')))],
